@@ -55,6 +55,8 @@ def main():
             jobs.append((os.path.basename(os.path.dirname(p)), p))
         for p in sorted(glob.glob(os.path.join(HERE, "seeded", "*", "patch.diff"))):
             meta = json.load(open(os.path.join(os.path.dirname(p), "meta.json")))
+            if meta.get("neutralised_by"):
+                continue  # a later fix: commit made this change harmless (kept for the record, no longer a violation)
             for prop in meta.get("checked_by", [meta["property"]]):
                 jobs.append((prop, p))
         if ns.only:
